@@ -41,6 +41,14 @@ type call struct {
 	retAt    time.Duration
 	ctxDoneAtRet bool
 	refused  bool // ReserveNewQuery returned nil
+	refusedClosed bool
+	startAt  time.Duration
+	cancelAt time.Duration
+	cancelled bool
+	answerConsumed bool // its answer was fully read by the client side
+	withdrawn bool
+	activeMax int  // max number of other reservations held while this call was inside ReserveNewQuery
+	reservingNow bool
 }
 
 // answerRec is one answer produced by the server actor.
